@@ -113,18 +113,9 @@ def drive(state, token, following):
     m = StubMatcher()
     ctx = ParserContext(StubScanner(following), m, deque(), [])
     la = []
-    orig0, orig1 = p.lookahead_0, p.lookahead_1
-
-    def l0(c, t):
-        r = orig0(c, t)
-        la.append((0, bool(r)))
-        return r
-
-    def l1(c, t):
-        r = orig1(c, t)
-        la.append((1, bool(r)))
-        return r
-    p.lookahead_0, p.lookahead_1 = l0, l1
+    scanner = ctx.token_scanner
+    # (look-ahead is observed by its effects — tokens read from the scanner and re-queued, alternative taken —
+    #  not by hooking lookahead_0/1, so a parser with differently organised helpers is observed just the same)
     err = None
     new = None
     try:
@@ -134,7 +125,7 @@ def drive(state, token, following):
     msg = str(ctx.errors[0]) if ctx.errors else None
     # calls on the *current* token only (look-ahead calls go to following tokens)
     return {"events": [e[:1] if e[0] == "build" else e for e in b.events], "new": new, "calls": m.calls, "error": msg,
-            "la": la, "raised": err, "queue": len(ctx.token_queue), "nerrors": len(ctx.errors)}
+            "la": la, "raised": err, "queue": len(ctx.token_queue), "nerrors": len(ctx.errors), "reads": scanner.reads}
 
 
 LA_NEXT = {(False, False): {"Other"}, (True, False): {"ScenarioLine", "Other"}, (False, True): {"ExamplesLine", "Other"},
@@ -216,7 +207,7 @@ def run_table(M):
                                           "lookahead": {"ScenarioLine": la0, "ExamplesLine": la1},
                                           "observed": got, "siblings": want}, dict(case, kind=k, la=[la0, la1]))
             # look-ahead must re-queue exactly the tokens it read, and read each only once
-            if k == "TagLine" and rr["la"] and rr["queue"] != 1:
+            if k == "TagLine" and rr["reads"] and rr["queue"] != rr["reads"]:
                 M.violation("C02.table", {"what": "look-ahead did not re-queue the token it read", "state": s, "queue": rr["queue"]}, case)
         # table in bisimulation format, from observation only
         seen = set()
@@ -231,10 +222,20 @@ def run_table(M):
                 if done_tag:
                     continue
                 done_tag = True
-                # guards in the order the look-ahead helpers are consulted when none succeeds
+                # guarded alternatives, identified by their effect: an alternative guarded by "ExamplesLine ahead"
+                # (id 1) / "ScenarioLine ahead" (id 0) exists iff that look-ahead outcome changes what happens;
+                # their order is read off the case where both are ahead
                 none = o["cells"][("TagLine", False, False)]
-                for gid, _ in none["la"]:
-                    rr = o["cells"][("TagLine", gid == 0, gid == 1)]
+                out = lambda rr: None if (rr["error"] or rr["raised"]) else (tuple(tuple(e) for e in rr["events"]), rr["new"])
+                ex, sc, both = o["cells"][("TagLine", False, True)], o["cells"][("TagLine", True, False)], o["cells"][("TagLine", True, True)]
+                guards = []
+                if out(ex) != out(none):
+                    guards.append((1, ex))
+                if out(sc) != out(none):
+                    guards.append((0, sc))
+                if len(guards) == 2 and out(both) == out(sc):
+                    guards.reverse()
+                for gid, rr in guards:
                     if not rr["error"] and not rr["raised"]:
                         T.append(("TagLine", gid, tuple(tuple(e) for e in rr["events"]), rr["new"]))
                 if not none["error"] and not none["raised"]:
@@ -265,7 +266,7 @@ def run_table(M):
                     ok = (want is None and got is None) or (want is not None and got is not None and
                                                              got[0] == [tuple(e) for e in want[0]] and got[1] == want[1])
                     nread = n + 1
-                    if rr["la"] and rr["queue"] != nread:
+                    if rr["reads"] and rr["queue"] != rr["reads"]:
                         ok = False
                     if not ok:
                         M.violation("C02.lookahead", {"what": "look-ahead over a window of skipped lines decides differently from the grammar hint "
